@@ -22,7 +22,11 @@ OpOps == << [op |-> "matmul", roles |-> <<"rhs">>], [op |-> "rmatmul", roles |->
             [op |-> "cat_rows", roles |-> <<"cross", "new">>], [op |-> "getitem_tensor", roles |-> <<"index">>],
             [op |-> "getitem_tensor_neg", roles |-> <<"index_neg">>],
             [op |-> "mul_const", roles |-> <<"const">>], [op |-> "add_tensor", roles |-> <<"mat">>],
-            [op |-> "noarg_queries", roles |-> <<>>] >>
+            [op |-> "noarg_queries", roles |-> <<>>],
+            \* every explicitly named decomposition method; and the same on the operator scaled by 1e-9 (entries below the clamping thresholds 1e-7)
+            [op |-> "methods", roles |-> <<>>], [op |-> "methods_tiny", roles |-> <<>>],
+            \* probe vectors handed over through settings.deterministic_probes (stochastic log-determinant path)
+            [op |-> "inv_quad_logdet_probes", roles |-> <<"rhs", "probes">>] >>
 \* utilities: [op, roles]
 UtilOps == << [op |-> "linear_cg", roles |-> <<"rhs", "guess">>], [op |-> "linear_cg_tridiag", roles |-> <<"rhs">>],
               [op |-> "minres", roles |-> <<"rhs", "shifts">>], [op |-> "lanczos_tridiag", roles |-> <<"init">>],
